@@ -1077,7 +1077,7 @@ func (dn *dirnode) loadManifest(txt string) error {
 				return fmt.Errorf("line %d: bad file segment %q", lineno, token)
 			}
 			length, err := strconv.ParseInt(toks[1], 10, 64)
-			if err != nil || length < 0 {
+			if err != nil || length < 0 || offset+length < offset {
 				return fmt.Errorf("line %d: bad file segment %q", lineno, token)
 			}
 			name := dirname + "/" + manifestUnescape(toks[2])
